@@ -141,7 +141,7 @@ PROPS['C08'] = dict(
     assumptions=STD,
 )
 PROPS['C09'] = dict(
-    rules=kernel_pack(('Bfs', 'Dfs', 'Pfs'), FLAVOURS, 'cycle') + [_r('RESMAP', dp.result_map, FLAVOURS, ('Bfs', 'Dfs', 'Pfs'), 'cycle'), _r('TR1', dp.tr1, DIRECTED, ('Bfs', 'Dfs', 'Pfs'), 'cycle'), _r('PFS1', dp.pfs1, FLAVOURS, 'cycle'), _r('BT', rb.bt, FLAVOURS), _r('PATH', rb.path_api, FLAVOURS), _r('PATH-hint', rb.path_hint, FLAVOURS)],
+    rules=kernel_pack(('Bfs', 'Dfs', 'Pfs'), FLAVOURS, 'cycle') + [_r('RESMAP', dp.result_map, FLAVOURS, ('Bfs', 'Dfs', 'Pfs'), 'cycle'), _r('TR1', dp.tr1, DIRECTED, ('Bfs', 'Dfs', 'Pfs'), 'cycle'), _r('PFS1', dp.pfs1, FLAVOURS, 'cycle'), _r('BT', rb.bt, FLAVOURS), _r('PATH', rb.path_api, FLAVOURS), _r('PATH-hint', rb.path_hint, FLAVOURS), _r('METHOD', rk.method, FLAVOURS)],
     explanation='12 cycle entries: target := key(root), root queued and not marked so that it can be re-discovered (CYC-INIT), then the same kernels (DISC/EXH/FRONT), transposed arms (TR1), '
                 'and back-tracking incl. BT-disjoint (the closing edge is not joined to itself). No search, ordering or SCC function reaches an adjacency-list mutator through the call graph (FRAME): a search computes on the graph the caller holds. Overridden provided methods of the Path iterators cannot underflow for any cursor value next() produces (PATH-hint).',
     decides='seeding of cycle searches, kernel discipline, back-tracking join and range',
@@ -214,12 +214,13 @@ PROPS['C18'] = dict(
 
 PROPS['C12'] = dict(
     rules=[_r('SER', rs.ser_rules, FLAVOURS), _r('P1', re_.p1_connect, FLAVOURS), _r('ENC-push', re_.enc_append, FLAVOURS), _r('ORIENT', re_.orient, FLAVOURS),
-           _r('FRAME', re_.frame, FLAVOURS, r'as serde::Serialize>::serialize$', 'the writer (and every helper it calls)')],
+           _r('FRAME', re_.frame, FLAVOURS, r'as serde::Serialize>::serialize$', 'the writer (and every helper it calls)'),
+           _r('DE', rs.de_rules, FLAVOURS, only=('DE3', 'DE4'))],
     explanation='Writer/reader agreement on all four flavours: the two serialize_element::<T> calls and the two next_element::<T> calls carry the same element types in the same order '
                 'inside a 2-tuple (SER1); the writer loops over all members and, per member, over an edge iterator whose list footprint is exactly the OUT list, so each edge (stored as '
                 'one OUT half) is written exactly once (SER2); the writer pushes (key(u), key(v), e) and the reader connects (get(t.0), get(t.1), t.2) (SER3); both sides use push and '
                 'forward loops with no reordering call, and connect appends (P1, ENC-push), so each node\'s outgoing order survives (SER4); nodes are written (key, value) once per member and '
-                'rebuilt with insert(Node::new(t.0, t.1)) before any edge is connected (SER5). The writer and everything it calls change no edge (FRAME).',
+                'rebuilt with insert(Node::new(t.0, t.1)) before any edge is connected (SER5). The writer and everything it calls change no edge (FRAME). The reader builds the graph from the document elements themselves, walked by plain loops -- no filtering, folding or reordering of what was read (DE3/DE4).',
     decides='multiplicity, orientation, order and shape agreement of writer and reader',
     does_not_decide='serde / serde_json / serde_cbor themselves and the Serialize/Deserialize impls of K, N, E',
     assumptions=STD + ['serde data formats round-trip the element types'],
